@@ -94,8 +94,8 @@ def setup_worker():
     base = iodata.api.LineIterator
 
     class SpyLineIterator(base):
-        def __init__(self, filename):
-            super().__init__(filename)
+        def __init__(self, *args, **kwargs):  # (whatever signature the class has: the spy only takes note)
+            super().__init__(*args, **kwargs)
             _SPY.append(self)
 
     iodata.api.LineIterator = SpyLineIterator
